@@ -226,11 +226,19 @@ def r2_init(ck, prog, run):
 
 
 # ---------------------------------------------------------------------------------------- R3
-def _revalidated(rhs, target):
-    """rhs is `type(T).like(T, ...).data` or `type(T)(...).data` with T the expression whose _data is being stored."""
-    if not (isinstance(rhs, ast.Attribute) and rhs.attr == "data" and isinstance(rhs.value, ast.Call)):
+def _revalidated(rhs, target, fn=None):
+    """rhs is `type(T).like(T, ...).data` or `type(T)(...).data` with T the expression whose _data is being stored (the freshly
+    built object may first be given a name that is assigned exactly once in the function)."""
+    if not (isinstance(rhs, ast.Attribute) and rhs.attr == "data"):
         return False
     c = rhs.value
+    if isinstance(c, ast.Name) and fn is not None:
+        defs = [a.value for a in ast.walk(fn) if isinstance(a, ast.Assign) and len(a.targets) == 1 and isinstance(a.targets[0], ast.Name) and a.targets[0].id == c.id]
+        if len(defs) != 1:
+            return False
+        c = defs[0]
+    if not isinstance(c, ast.Call):
+        return False
     fn = c.func
     if isinstance(fn, ast.Attribute) and fn.attr == "like":
         if not (c.args and norm(c.args[0]) == norm(target)):
@@ -266,7 +274,7 @@ def r3_who_may_write(ck, prog, run):
                         ok = in_sigclass and isinstance(t2.value, ast.Name) and t2.value.id == selfname and (
                             (f.kind == "setter" and f.name == own) or (t2.attr == "_data" and f.qualname == "Signal.__init__"))
                         how = f"stored in {f.qualname}"
-                        if not ok and t2.attr == "_data" and in_sigclass and isinstance(node, ast.Assign) and _revalidated(node.value, t2.value):
+                        if not ok and t2.attr == "_data" and in_sigclass and isinstance(node, ast.Assign) and _revalidated(node.value, t2.value, f.node):
                             # b._data = type(b).like(b, x).data / type(b)(x, ...).data : the array has just been through the class's
                             # own constructor (dimension, shape and dtype checks, safe cast), built for this very object
                             ok, how = True, how + " from the data of an object freshly built by the target's own class"
